@@ -121,4 +121,20 @@ CHECKS['C05'] = {
     'technique': 'symbolic type sets through the real constructors (z3 validity per path) + exhaustive clash injection',
 }
 
+CHECKS['C04'] = {
+    'engine': 'SF+generation', 'category': 'other', 'design_ref': 'DESIGN.md 1 (SF), 3.2, 4 (C04)',
+    'text': ('SF: for ALL child type sets of every construction form, children that are compatible with their parameter types are never rejected. '
+             'Schema-directed generation of well-typed predicates over two schemas: accepted by callbacks and real parser, every reference inferred at a type set containing its schema type, property-level schema check succeeds.'),
+    'note': 'Trusted: z3, vf/sf.py explorer, re-stated signature table, the schema oracle in vf/schemas.py. Generated predicates are a bounded enumeration (depth <= 3, two schemas).',
+    'technique': 'symbolic type sets through the real constructors (z3 validity per path) + schema-directed generation',
+}
+CHECKS['C17'] = {
+    'engine': 'SP+BV', 'category': 'other', 'design_ref': 'DESIGN.md 1 (SP), 4 (C17)',
+    'text': ('SP: symbolic field names (also as schema keys), array lengths and literal indices through the real type_check_references/_get_next_token/contains_index, all feasible paths vs the schema oracle; '
+             'exhaustive single-fault injection at every reference position of the C04 predicates; z3 bit-vector queries prove each predefined integer token carries exactly its two\'s-complement bounds (complete per width); '
+             'token constructors with symbolic min/max/length; navigation helpers with a symbolic probe name.'),
+    'note': 'Trusted: z3; proxies (each path re-run with real str/int values); schema oracle in vf/schemas.py.',
+    'technique': 'symbolic execution on z3-backed name/int proxies + bit-vector queries + single-fault injection',
+}
+
 NOT_APPLICABLE = {}
